@@ -320,7 +320,7 @@ def correspond(pid, spec, tier, seed):
     """Runs every configured profile; returns dict with stats and disagreements."""
     stats = {"evaluations": 0, "profiles": [], "disagreements": [], "oracle_failures": [],
              "machinery": [], "distinct": set(), "samples": [], "kinds": {}, "guard_skipped": 0,
-             "known": []}
+             "known": [], "hangs": []}
     runs = list(spec["runs"])
     corpus = os.path.join(ROOT, "corpus", f"{pid}.cases")
     if os.path.exists(corpus):
@@ -351,6 +351,12 @@ def correspond(pid, spec, tier, seed):
                 raise MachineryError(f"cli harness gen {prof} failed: {p.stdout[-3000:]}")
         else:
             p = sh([HARNESS_BIN, "gen", prof, str(seed), str(n), tier, outdir], check=False, timeout=7200)
+            hang = os.path.join(outdir, "hang.txt")
+            if p.returncode == 3 and os.path.exists(hang):
+                # the implementation did not come back from one case (the harness's watchdog ended the
+                # run): that input is the finding; the rest of this profile is not evaluated
+                stats["hangs"].append({"profile": prof, "case": open(hang).read().strip()})
+                continue
             if p.returncode != 0:
                 raise MachineryError(f"harness gen {prof} failed: {p.stdout[-3000:]}")
         cases, model = run_model(os.path.join(outdir, "cases.txt"), os.path.join(outdir, "model.txt"))
@@ -505,6 +511,15 @@ def run_check(pid, tier, seed):
 
     # a disagreement on a case whose oracle failure is reported anyway is the same event; one whose
     # oracle failure is a known finding is not (the known defect does not explain a disagreement)
+    for k, h in enumerate(stats["hangs"]):
+        path = write_replay(pid, f"hang_{h['profile']}_{k}.json", {
+            "property": pid, "kind": "implementation-does-not-terminate", "profile": h["profile"], "seed": seed, "tier": tier,
+            "case_line": h["case"], "case_decoded": decode_line(h["case"], 20000),
+            "what": "the implementation did not return from this case within 90 s (the model answers at once); "
+                    "the remaining cases of the profile were not evaluated",
+            "replay_cmd": f"python3 tools/check.py {pid} --replay <this file>"})
+        violations.append((path, ""))
+
     oracle_cases = set((x["profile"], x["index"]) for x in stats["oracle_failures"]
                        if not matches_known(pid, x, known))
     for item in stats["oracle_failures"]:
@@ -571,7 +586,11 @@ def replay(pid, path):
         a = subprocess.run(["python3", os.path.join(ROOT, "tools", "cli_harness.py"), "replay"], input=line,
                            stdout=subprocess.PIPE, text=True, env=ENV).stdout.strip()
     else:
-        a = subprocess.run([HARNESS_BIN, "replay"], input=line, stdout=subprocess.PIPE, text=True, env=ENV).stdout.strip()
+        try:
+            a = subprocess.run([HARNESS_BIN, "replay"], input=line, stdout=subprocess.PIPE, text=True, env=ENV,
+                               timeout=150).stdout.strip()
+        except subprocess.TimeoutExpired:
+            a = "(the implementation did not return within 150 s)"
     m = subprocess.run([MODEL_BIN], input=line, stdout=subprocess.PIPE, text=True).stdout.strip()
     print("case:           ", payload.get("case_decoded", "")[:3000])
     print("implementation: ", decode_line(a, 3000))
